@@ -86,11 +86,14 @@ def main(argv=None):
         cases = mod.generate(seed, tier)
         if ncases is not None:
             cases = cases[:ncases]
-    timeout = mod.TIMEOUT[tier]
-    deadline = float(os.environ.get("VERIF_DEADLINE", mod.DEADLINE[tier]))  # override for development sweeps only
-    env_extra = getattr(mod, "WORKER_ENV", None)
+    lf = harness.load_factor()
+    timeout = mod.TIMEOUT[tier] * lf
+    deadline = float(os.environ.get("VERIF_DEADLINE", mod.DEADLINE[tier])) * lf  # env override for development sweeps only
+    env_extra = dict(getattr(mod, "WORKER_ENV", None) or {})
+    env_extra["VERIF_LOAD_FACTOR"] = str(lf)
     results = harness.run_cases(check_id, tier, cases, timeout, nworkers=nworkers, deadline_s=deadline,
-                                env_extra=env_extra, progress=bool(os.environ.get("VERIF_PROGRESS")))
+                                env_extra=env_extra, progress=bool(os.environ.get("VERIF_PROGRESS")),
+                                timeout_scale=lf, min_deciding=(mod.MIN_DECIDING[tier] if not replay and ncases is None else 0))
 
     known = [k for k in load_known() if check_id in k.get("properties", [k.get("property")]) and k.get("status") == "open"]
     known_keys = {k["key"]: k for k in known}
@@ -194,6 +197,9 @@ def main(argv=None):
             "inconclusive": inconc,
             "known_findings_seen": kf_seen,
             "exhaustive": False,
+            "load_factor": lf,
+            "case_timeout_s": round(timeout, 1),
+            "deadline_s": round(deadline, 1),
         },
         "assumptions": getattr(mod, "ASSUMPTIONS", []),
         "wall_s": round(wall, 2),
